@@ -18,6 +18,7 @@
 #define QM_RX_MAXSEG 26
 #endif
 #define QM_RX_MAXWORDS 6
+#define QM_RX_WORDMAX 10
 #define QM_RX_MAXCAP 4
 
 enum { RX_ATOM = 0, RX_ALT = 1, RX_GOPEN = 2, RX_GCLOSE = 3, RX_STR = 4 };
@@ -92,29 +93,31 @@ static inline void rx_escape_class(ushort e, RxSeg &s)
     }
 }
 
-struct RxPat { const ushort *m_d; int m_len; };
+struct RxPat {
+    const ushort *u; const char *c; int m_len;
+    ushort at(int i) const { return u ? u[i] : ushort(uchar(c[i])); }   // literals are read in place (constant global arrays fold in symex)
+};
 static inline void rx_compile(const RxPat &pat, int LB, RxProg &pr)
 {
     pr.valid = true; pr.anchorStart = false; pr.anchorEnd = false; pr.n = 0; pr.ncap = 0; pr.nwords = 0;
     const int L = pat.m_len;
     int pos = 0;
     int openSeg = -1;       // index of the open (single level) group, or -1
-    if (L > 0 && pat.m_d[0] == '^') { pr.anchorStart = true; pos = 1; }
-    for (int step = 0; step < LB + 1; ++step) {
-        if (pos >= L) break;
-        ushort c = pat.m_d[pos];
-        if (c == '$' && pos == L - 1) { pr.anchorEnd = true; pos++; break; }
+    if (L > 0 && pat.at(0) == '^') { pr.anchorStart = true; pos = 1; }
+    for (int step = 0; step < LB + 1; ++step) if (pos < L) {      // (no early exits: keeps CBMC's path guards small)
+        ushort c = pat.at(pos);
+        if (c == '$' && pos == L - 1) { pr.anchorEnd = true; pos++; continue; }
         QM_LIMIT(pr.n < QM_RX_MAXSEG);
         RxSeg s; s.type = RX_ATOM; s.cls = RXC_LIT; s.neg = false; s.lazy = false; s.opt = false; s.ch = 0; s.nitems = 0; s.min = 1; s.max = 1; s.cap = 0; s.jump = 0; s.w0 = 0; s.w1 = 0; s.slen = 0;
         bool quantifiable = true;
         if (c == '(') {
             int q = pos + 1; bool capturing = true;
-            if (q + 1 < L && pat.m_d[q] == '?' && pat.m_d[q + 1] == ':') { capturing = false; q += 2; }
-            else QM_LIMIT(!(q < L && pat.m_d[q] == '?'));       // lookaround / named groups / options: outside the model
+            if (q + 1 < L && pat.at(q) == '?' && pat.at(q + 1) == ':') { capturing = false; q += 2; }
+            else QM_LIMIT(!(q < L && pat.at(q) == '?'));       // lookaround / named groups / options: outside the model
             // pure alternation of literal words?
             int close = -1; bool pure = true; bool bar = false;
             for (int i = 0; i < LB; ++i) if (i >= q && i < L && close < 0) {
-                ushort d = pat.m_d[i];
+                ushort d = pat.at(i);
                 if (d == ')') close = i;
                 else if (d == '|') bar = true;
                 else if (d == '\\') { pure = false; }
@@ -124,15 +127,15 @@ static inline void rx_compile(const RxPat &pat, int LB, RxProg &pr)
                 s.type = RX_ALT; s.w0 = pr.nwords;
                 QString w; w.m_null = false;
                 for (int i = 0; i < LB; ++i) if (i >= q && i <= close) {
-                    ushort d = pat.m_d[i];
+                    ushort d = pat.at(i);
                     if (d == '|' || i == close) { QM_LIMIT(pr.nwords < QM_RX_MAXWORDS); for (int j = 0; j < QM_RX_MAXWORDS; ++j) if (j == pr.nwords) pr.words[j] = w; pr.nwords++; w.m_len = 0; }
-                    else w.append(QChar(d));
+                    else { QM_LIMIT(w.m_len < QM_RX_WORDMAX); w.append(QChar(d)); }
                 }
                 s.w1 = pr.nwords;
                 if (capturing) s.cap = ++pr.ncap;
                 pos = close + 1;
                 quantifiable = false;
-                QM_LIMIT(!(pos < L && (pat.m_d[pos] == '?' || pat.m_d[pos] == '*' || pat.m_d[pos] == '+' || pat.m_d[pos] == '{')));
+                QM_LIMIT(!(pos < L && (pat.at(pos) == '?' || pat.at(pos) == '*' || pat.at(pos) == '+' || pat.at(pos) == '{')));
             } else {
                 QM_LIMIT(openSeg < 0);          // nested groups (other than a word alternation) are outside the model
                 s.type = RX_GOPEN;
@@ -146,24 +149,24 @@ static inline void rx_compile(const RxPat &pat, int LB, RxProg &pr)
             s.type = RX_GCLOSE;
             pos++;
             bool optional = false;
-            if (pos < L && pat.m_d[pos] == '?') { optional = true; pos++; }
-            QM_LIMIT(!(pos < L && (pat.m_d[pos] == '*' || pat.m_d[pos] == '+' || pat.m_d[pos] == '{' || pat.m_d[pos] == '?')));
+            if (pos < L && pat.at(pos) == '?') { optional = true; pos++; }
+            QM_LIMIT(!(pos < L && (pat.at(pos) == '*' || pat.at(pos) == '+' || pat.at(pos) == '{' || pat.at(pos) == '?')));
             for (int j = 0; j < QM_RX_MAXSEG; ++j) if (j == openSeg) { s.cap = pr.seg[j].cap; pr.seg[j].opt = optional; pr.seg[j].jump = pr.n + 1; }
             openSeg = -1;
             quantifiable = false;
         } else if (c == '[') {
             s.cls = RXC_BRACKET;
             int i = pos + 1;
-            if (i < L && pat.m_d[i] == '^') { s.neg = true; i++; }
+            if (i < L && pat.at(i) == '^') { s.neg = true; i++; }
             bool closed = false;
             for (int k = 0; k < 6; ++k) if (!closed) {
                 QM_LIMIT(i < L);
-                ushort d = pat.m_d[i];
+                ushort d = pat.at(i);
                 if (d == ']' && k > 0) { closed = true; i++; }
                 else {
                     QM_LIMIT(d != '\\' && d != '[' && k < 4);
                     ushort lo = d, hi = d;
-                    if (i + 2 < L && pat.m_d[i + 1] == '-' && pat.m_d[i + 2] != ']') { hi = pat.m_d[i + 2]; i += 3; } else i++;
+                    if (i + 2 < L && pat.at(i + 1) == '-' && pat.at(i + 2) != ']') { hi = pat.at(i + 2); i += 3; } else i++;
                     for (int j = 0; j < 4; ++j) if (j == s.nitems) { s.lo[j] = lo; s.hi[j] = hi; }
                     s.nitems++;
                 }
@@ -172,7 +175,7 @@ static inline void rx_compile(const RxPat &pat, int LB, RxProg &pr)
             pos = i;
         } else if (c == '\\') {
             QM_LIMIT(pos + 1 < L);
-            rx_escape_class(pat.m_d[pos + 1], s);
+            rx_escape_class(pat.at(pos + 1), s);
             pos += 2;
         } else if (c == '.') { s.cls = RXC_ANY; pos++; }
         else {
@@ -180,22 +183,22 @@ static inline void rx_compile(const RxPat &pat, int LB, RxProg &pr)
             s.cls = RXC_LIT; s.ch = c; pos++;       // includes a '{' that does not start a quantifier (checked below) and '}' ']'
         }
         if (quantifiable && pos < L) {
-            ushort qc = pat.m_d[pos];
+            ushort qc = pat.at(pos);
             bool had = false;
             if (qc == '*') { s.min = 0; s.max = -1; pos++; had = true; }
             else if (qc == '+') { s.min = 1; s.max = -1; pos++; had = true; }
             else if (qc == '?') { s.min = 0; s.max = 1; pos++; had = true; }
-            else if (qc == '{' && pos + 2 < L && pat.m_d[pos + 1] >= '0' && pat.m_d[pos + 1] <= '9') {
+            else if (qc == '{' && pos + 2 < L && pat.at(pos + 1) >= '0' && pat.at(pos + 1) <= '9') {
                 // {n} or {n,m} or {n,} with single-digit numbers
-                int n1 = pat.m_d[pos + 1] - '0';
-                if (pat.m_d[pos + 2] == '}') { s.min = n1; s.max = n1; pos += 3; had = true; }
-                else if (pat.m_d[pos + 2] == ',' && pos + 3 < L && pat.m_d[pos + 3] == '}') { s.min = n1; s.max = -1; pos += 4; had = true; }
-                else if (pat.m_d[pos + 2] == ',' && pos + 4 < L && pat.m_d[pos + 3] >= '0' && pat.m_d[pos + 3] <= '9' && pat.m_d[pos + 4] == '}') { s.min = n1; s.max = pat.m_d[pos + 3] - '0'; pos += 5; had = true; }
+                int n1 = pat.at(pos + 1) - '0';
+                if (pat.at(pos + 2) == '}') { s.min = n1; s.max = n1; pos += 3; had = true; }
+                else if (pat.at(pos + 2) == ',' && pos + 3 < L && pat.at(pos + 3) == '}') { s.min = n1; s.max = -1; pos += 4; had = true; }
+                else if (pat.at(pos + 2) == ',' && pos + 4 < L && pat.at(pos + 3) >= '0' && pat.at(pos + 3) <= '9' && pat.at(pos + 4) == '}') { s.min = n1; s.max = pat.at(pos + 3) - '0'; pos += 5; had = true; }
                 else QM_LIMIT(false);    // multi-digit counts: outside the model
             }
             if (had && pos < L) {
-                if (pat.m_d[pos] == '?') { s.lazy = true; pos++; }
-                QM_LIMIT(!(pos < L && (pat.m_d[pos] == '+' || pat.m_d[pos] == '*' || (pat.m_d[pos] == '?' && !s.lazy))));   // possessive / stacked quantifiers
+                if (pat.at(pos) == '?') { s.lazy = true; pos++; }
+                QM_LIMIT(!(pos < L && (pat.at(pos) == '+' || pat.at(pos) == '*' || (pat.at(pos) == '?' && !s.lazy))));   // possessive / stacked quantifiers
             }
         }
         if (s.type == RX_ATOM && s.cls == RXC_LIT && s.min == 1 && s.max == 1) {
@@ -215,98 +218,192 @@ static inline void rx_compile(const RxPat &pat, int LB, RxProg &pr)
     QM_LIMIT(openSeg < 0);        // unbalanced '(' : PCRE reports an invalid pattern; not modelled
 }
 
+static inline bool rx_word_at(const QString &subj, int p, const QString &word)
+{
+    if (p < 0 || p + word.m_len > subj.m_len) return false;
+    bool ok = true;
+    for (int k = 0; k < QM_RX_WORDMAX; ++k) if (k < word.m_len && subj.m_d[p + k] != word.m_d[k]) ok = false;
+    return ok;
+}
+
 struct RxResult {
     bool has;
     int start, end;
     int cs[QM_RX_MAXCAP + 1], ce[QM_RX_MAXCAP + 1];    // capture extents, -1 = did not participate
 };
 
+// DP tables are deliberately flat arrays of more than 64 elements: CBMC then treats them through array theory instead of
+// expanding them field by field on every access (an access costs time proportional to the number of leaves of its root object).
+#define QM_RX_W (QM_STR_CAP + 2)
+#define QM_RX_TAB ((QM_RX_MAXSEG + 1) * QM_RX_W < 80 ? 80 : (QM_RX_MAXSEG + 1) * QM_RX_W)
 static inline void rx_exec(const RxProg &pr, const QString &subj, int from, RxResult &res)
 {
     const int L = subj.m_len;
+    const int N = pr.n;
+    const bool aStart = pr.anchorStart, aEnd = pr.anchorEnd;
     res.has = false; res.start = -1; res.end = -1;
     for (int g = 0; g <= QM_RX_MAXCAP; ++g) { res.cs[g] = -1; res.ce[g] = -1; }
-    QM_LIMIT(!(pr.anchorEnd && L > 0 && subj.m_d[L - 1] == '\n'));     // '$' before a final newline: not modelled
-    // can[i][p]: segments i.. match from p to an accepting end
-    bool can[QM_RX_MAXSEG + 1][QM_STR_CAP + 2];
-    short run[QM_RX_MAXSEG][QM_STR_CAP + 2];
-    for (int p = 0; p <= QM_STR_CAP + 1; ++p) for (int i = 0; i <= QM_RX_MAXSEG; ++i) can[i][p] = false;
-    for (int i = QM_RX_MAXSEG; i >= 0; --i) {
-        if (i > pr.n) continue;
-        if (i == pr.n) { for (int p = 0; p <= QM_STR_CAP; ++p) can[i][p] = p <= L && (!pr.anchorEnd || p == L); continue; }
-        const RxSeg &s = pr.seg[i];
-        if (s.type == RX_ATOM) {
-            run[i][QM_STR_CAP + 1] = 0;
-            for (int p = QM_STR_CAP; p >= 0; --p) run[i][p] = (p < L && rx_cls_match(s, subj.m_d[p < QM_STR_CAP ? p : 0])) ? short(1 + run[i][p + 1]) : short(0);
+    QM_LIMIT(!(aEnd && L > 0 && subj.m_d[L - 1 < 0 ? 0 : L - 1] == '\n'));     // '$' before a final newline: not modelled
+    ushort sub[QM_STR_CAP + 1];
+    for (int p = 0; p < QM_STR_CAP; ++p) sub[p] = subj.m_d[p];
+    sub[QM_STR_CAP] = 0;
+    bool can[QM_RX_TAB];        // can[i*W+p]: segments i.. match from p to an accepting end
+    short run[QM_RX_TAB];       // run[i*W+p]: how many consecutive characters from p the class of atom i matches
+    for (int i = QM_RX_MAXSEG; i >= 0; --i) if (i <= N) {
+        const int row = i * QM_RX_W, nrow = (i + 1) * QM_RX_W;
+        if (i == N) { for (int p = 0; p <= QM_STR_CAP; ++p) can[row + p] = p <= L && (!aEnd || p == L); }
+        else {
+        const RxSeg seg = pr.seg[i];          // local copy: small root object
+        const int type = seg.type, smin = seg.min, smax = seg.max, slen = seg.slen, w0 = seg.w0, w1 = seg.w1, jump = seg.jump; const bool opt = seg.opt;
+        if (type == RX_ATOM) {
+            run[row + QM_STR_CAP + 1] = 0;
+            for (int p = QM_STR_CAP; p >= 0; --p) run[row + p] = (p < L && rx_cls_match(seg, sub[p])) ? short(1 + run[row + p + 1]) : short(0);
             for (int p = 0; p <= QM_STR_CAP; ++p) {
-                bool ok = false;
+                bool ok = false; const int r = run[row + p];
                 for (int k = 0; k + p <= QM_STR_CAP; ++k)
-                    if (k >= s.min && (s.max < 0 || k <= s.max) && k <= run[i][p] && can[i + 1][p + k]) ok = true;
-                can[i][p] = ok;
+                    if (k >= smin && (smax < 0 || k <= smax) && k <= r && can[nrow + p + k]) ok = true;
+                can[row + p] = ok;
             }
-        } else if (s.type == RX_ALT) {
+        } else if (type == RX_ALT) {
             for (int p = 0; p <= QM_STR_CAP; ++p) {
                 bool ok = false;
-                for (int w = 0; w < QM_RX_MAXWORDS; ++w) if (w >= s.w0 && w < s.w1) {
-                    const QString &word = pr.words[w];
-                    if (p + word.m_len <= L && subj.matchAt(p, word)) { bool c2 = false; for (int q = 0; q <= QM_STR_CAP; ++q) if (q == p + word.m_len) c2 = can[i + 1][q]; if (c2) ok = true; }
+                for (int w = 0; w < QM_RX_MAXWORDS; ++w) if (w >= w0 && w < w1) {
+                    const int wl = pr.words[w].m_len;
+                    if (rx_word_at(subj, p, pr.words[w]) && can[nrow + p + wl]) ok = true;
                 }
-                can[i][p] = ok;
+                can[row + p] = ok;
             }
-        } else if (s.type == RX_STR) {
+        } else if (type == RX_STR) {
             for (int p = 0; p <= QM_STR_CAP; ++p) {
-                bool ok = p + s.slen <= L;
-                for (int k = 0; k < QM_RX_STRMAX; ++k) if (k < s.slen && ok && subj.m_d[(p + k) < QM_STR_CAP ? (p + k) : 0] != s.str[k]) ok = false;
-                bool c2 = false; for (int q = 0; q <= QM_STR_CAP; ++q) if (q == p + s.slen) c2 = can[i + 1][q];
-                can[i][p] = ok && c2;
+                bool ok = p + slen <= L;
+                for (int k = 0; k < QM_RX_STRMAX; ++k) if (k < slen && ok && sub[(p + k) < QM_STR_CAP ? (p + k) : QM_STR_CAP] != seg.str[k]) ok = false;
+                can[row + p] = ok && can[nrow + (ok ? p + slen : 0)];
             }
-        } else if (s.type == RX_GOPEN) {
-            for (int p = 0; p <= QM_STR_CAP; ++p) {
-                bool skip = false;
-                if (s.opt) for (int j = 0; j <= QM_RX_MAXSEG; ++j) if (j == s.jump) skip = can[j][p];
-                can[i][p] = can[i + 1][p] || skip;
-            }
+        } else if (type == RX_GOPEN) {
+            for (int p = 0; p <= QM_STR_CAP; ++p) can[row + p] = can[nrow + p] || (opt && can[jump * QM_RX_W + p]);
         } else {
-            for (int p = 0; p <= QM_STR_CAP; ++p) can[i][p] = can[i + 1][p];
+            for (int p = 0; p <= QM_STR_CAP; ++p) can[row + p] = can[nrow + p];
+        }
         }
     }
     // leftmost start
     int start = -1;
-    for (int p = 0; p <= QM_STR_CAP; ++p) if (start < 0 && p >= from && p <= L && can[0][p] && (!pr.anchorStart || p == 0)) start = p;
+    for (int p = 0; p <= QM_STR_CAP; ++p) if (start < 0 && p >= from && p <= L && can[p] && (!aStart || p == 0)) start = p;
     if (start < 0) return;
     res.has = true; res.start = start;
-    // forward pass in preference order
+    // forward pass in preference order.  The segment index stays a concrete loop counter (an optional group that is
+    // skipped simply deactivates the segments up to its end), only the subject position is data.
     int p = start;
-    int i = 0;
-    for (int step = 0; step < QM_RX_MAXSEG; ++step) {
-        if (i >= pr.n) break;
-        const RxSeg &s = pr.seg[i];
-        if (s.type == RX_ATOM) {
-            int chosen = -1;
-            if (s.lazy) { for (int k = 0; k <= QM_STR_CAP; ++k) if (chosen < 0 && k >= s.min && (s.max < 0 || k <= s.max) && p + k <= QM_STR_CAP && k <= run[i][p] && can[i + 1][p + k]) chosen = k; }
-            else { for (int k = QM_STR_CAP; k >= 0; --k) if (chosen < 0 && k >= s.min && (s.max < 0 || k <= s.max) && p + k <= QM_STR_CAP && k <= run[i][p] && can[i + 1][p + k]) chosen = k; }
+    int skipTo = 0;
+    for (int i = 0; i < QM_RX_MAXSEG; ++i) if (i < N && i >= skipTo) {
+        const int row = i * QM_RX_W, nrow = (i + 1) * QM_RX_W;
+        const RxSeg seg = pr.seg[i];
+        const int type = seg.type, smin = seg.min, smax = seg.max, slen = seg.slen, w0 = seg.w0, w1 = seg.w1, jump = seg.jump, cap = seg.cap; const bool lazy = seg.lazy;
+        if (type == RX_ATOM) {
+            int chosen = -1; const int r = run[row + p];
+            if (lazy) { for (int k = 0; k <= QM_STR_CAP; ++k) if (chosen < 0 && k >= smin && (smax < 0 || k <= smax) && p + k <= QM_STR_CAP && k <= r && can[nrow + p + k]) chosen = k; }
+            else { for (int k = QM_STR_CAP; k >= 0; --k) if (chosen < 0 && k >= smin && (smax < 0 || k <= smax) && p + k <= QM_STR_CAP && k <= r && can[nrow + p + k]) chosen = k; }
             QM_ASSERT(chosen >= 0, "regex model: forward pass lost the match");
-            p += chosen; i++;
-        } else if (s.type == RX_ALT) {
+            p += chosen;
+        } else if (type == RX_ALT) {
             int len = -1;
-            for (int w = 0; w < QM_RX_MAXWORDS; ++w) if (len < 0 && w >= s.w0 && w < s.w1) {
-                const QString &word = pr.words[w];
-                if (p + word.m_len <= L && subj.matchAt(p, word) && can[i + 1][p + word.m_len]) len = word.m_len;
+            for (int w = 0; w < QM_RX_MAXWORDS; ++w) if (len < 0 && w >= w0 && w < w1) {
+                const int wl = pr.words[w].m_len;
+                if (rx_word_at(subj, p, pr.words[w]) && can[nrow + p + wl]) len = wl;
             }
             QM_ASSERT(len >= 0, "regex model: forward pass lost the match");
-            if (s.cap) for (int g = 0; g <= QM_RX_MAXCAP; ++g) if (g == s.cap) { res.cs[g] = p; res.ce[g] = p + len; }
-            p += len; i++;
-        } else if (s.type == RX_STR) {
-            p += s.slen; i++;
-        } else if (s.type == RX_GOPEN) {
-            if (can[i + 1][p]) { if (s.cap) for (int g = 0; g <= QM_RX_MAXCAP; ++g) if (g == s.cap) res.cs[g] = p; i++; }
-            else i = s.jump;
+            if (cap) for (int g = 0; g <= QM_RX_MAXCAP; ++g) if (g == cap) { res.cs[g] = p; res.ce[g] = p + len; }
+            p += len;
+        } else if (type == RX_STR) {
+            p += slen;
+        } else if (type == RX_GOPEN) {
+            if (can[nrow + p]) { if (cap) for (int g = 0; g <= QM_RX_MAXCAP; ++g) if (g == cap) res.cs[g] = p; }
+            else skipTo = jump;
         } else {
-            if (s.cap) for (int g = 0; g <= QM_RX_MAXCAP; ++g) if (g == s.cap) res.ce[g] = p;
-            i++;
+            if (cap) for (int g = 0; g <= QM_RX_MAXCAP; ++g) if (g == cap) res.ce[g] = p;
         }
     }
     res.end = p;
+}
+
+// ---- flat fragment (used for patterns whose TEXT is symbolic, -DQM_RX_FLAT): a sequence of single-character atoms
+// (literal, escaped literal, '.') each optionally followed by * + ?, with ^ / $ at the ends.  This is exactly what
+// QRegularExpression::escape() + replace("\\*", ".*") can produce, plus bare '.', '*', '+', '?' so that a missing escape
+// changes verdicts instead of leaving the model.  Groups, classes, braces and alternation are QM_LIMIT here.
+#ifndef QM_RX_FLATMAX
+#define QM_RX_FLATMAX QM_STR_CAP
+#endif
+struct RxFlat {
+    bool anchorStart, anchorEnd;
+    int n;
+    unsigned char kind[QM_RX_FLATMAX];    // 0 literal, 1 any-but-newline
+    unsigned char quant[QM_RX_FLATMAX];   // 0 one, 1 star, 2 plus, 3 optional
+    ushort ch[QM_RX_FLATMAX];
+};
+static inline void rx_flat_compile(const QString &pat, RxFlat &f)
+{
+    const int L = pat.m_len;
+    f.anchorStart = false; f.anchorEnd = false; f.n = 0;
+    int pos = 0;
+    int LE = L;        // effective end of the expression body
+    if (L > 0 && pat.m_d[0] == '^') { f.anchorStart = true; pos = 1; }
+    // QRegularExpression::anchoredPattern(): \A(?: body )\z
+    if (L >= 8 && pat.m_d[0] == '\\' && pat.m_d[1] == 'A' && pat.m_d[2] == '(' && pat.m_d[3] == '?' && pat.m_d[4] == ':') {
+        QM_LIMIT(pat.m_d[L - 3 < 0 ? 0 : L - 3] == ')' && pat.m_d[L - 2 < 0 ? 0 : L - 2] == '\\' && pat.m_d[L - 1] == 'z');
+        f.anchorStart = true; f.anchorEnd = true; pos = 5; LE = L - 3;
+    }
+    for (int step = 0; step < QM_STR_CAP; ++step) if (pos < LE) {
+        ushort c = pat.m_d[pos];
+        if (c == '$' && pos == L - 1) { f.anchorEnd = true; pos++; continue; }
+        unsigned char kind = 0; ushort ch = c;
+        if (c == '[' && pos + 3 < LE && pat.m_d[(pos + 1) < QM_STR_CAP ? pos + 1 : 0] == '^' && pat.m_d[(pos + 2) < QM_STR_CAP ? pos + 2 : 0] == '/' && pat.m_d[(pos + 3) < QM_STR_CAP ? pos + 3 : 0] == ']') {
+            kind = 2; pos += 4;          // [^/]  (from wildcardToRegularExpression)
+        } else if (c == '\\') {
+            QM_LIMIT(pos + 1 < L);
+            ch = pat.m_d[pos + 1 < QM_STR_CAP ? pos + 1 : 0];
+            QM_LIMIT(!((ch >= 'a' && ch <= 'z') || (ch >= 'A' && ch <= 'Z') || (ch >= '0' && ch <= '9')));   // \d \s ... : not in the flat fragment
+            pos += 2;
+        } else {
+            QM_LIMIT(c != '(' && c != ')' && c != '[' && c != '{' && c != '|' && c != '^' && c != '$' && c != '*' && c != '+' && c != '?');
+            if (c == '.') kind = 1;
+            pos++;
+        }
+        unsigned char q = 0;
+        if (pos < LE) {
+            ushort qc = pat.m_d[pos < QM_STR_CAP ? pos : 0];
+            if (qc == '*') { q = 1; pos++; } else if (qc == '+') { q = 2; pos++; } else if (qc == '?') { q = 3; pos++; }
+            if (q != 0 && pos < LE) { ushort l2 = pat.m_d[pos < QM_STR_CAP ? pos : 0]; QM_LIMIT(l2 != '?' && l2 != '+' && l2 != '*'); }   // lazy/possessive: not needed for hasMatch-only... excluded
+        }
+        QM_LIMIT(f.n < QM_RX_FLATMAX);
+        for (int j = 0; j < QM_RX_FLATMAX; ++j) if (j == f.n) { f.kind[j] = kind; f.quant[j] = q; f.ch[j] = ch; }
+        f.n++;
+    }
+}
+static inline bool rx_flat_has_match(const RxFlat &f, const QString &subj)
+{
+    const int L = subj.m_len;
+    bool cur[QM_STR_CAP + 2], nxt[QM_STR_CAP + 2];
+    for (int j = 0; j <= QM_STR_CAP; ++j) cur[j] = j <= L && (!f.anchorStart || j == 0);
+    for (int k = 0; k < QM_RX_FLATMAX; ++k) if (k < f.n) {
+        const unsigned char q = f.quant[k];
+        bool prevNew = false;
+        for (int j = 0; j <= QM_STR_CAP; ++j) {
+            // m: atom k matches subject[j-1]
+            bool m = j >= 1 && j <= L && (f.kind[k] == 1 ? subj.m_d[j - 1] != '\n' : f.kind[k] == 2 ? subj.m_d[j - 1] != '/' : subj.m_d[j - 1] == f.ch[k]);
+            bool viaOne = j >= 1 && cur[j - 1] && m;
+            bool v;
+            if (q == 0) v = viaOne;
+            else if (q == 3) v = cur[j] || viaOne;
+            else if (q == 1) v = cur[j] || (prevNew && m);
+            else v = viaOne || (prevNew && m);
+            nxt[j] = v && j <= L;
+            prevNew = nxt[j];
+        }
+        for (int j = 0; j <= QM_STR_CAP; ++j) cur[j] = nxt[j];
+    }
+    bool r = false;
+    for (int j = 0; j <= QM_STR_CAP; ++j) if (j <= L && cur[j] && (!f.anchorEnd || j == L)) r = true;
+    return r;
 }
 
 class QRegularExpressionMatch
@@ -314,11 +411,12 @@ class QRegularExpressionMatch
 public:
     RxResult m_r;
     QString m_subject;
-    QRegularExpressionMatch() { m_r.has = false; }
+    bool m_flat;
+    QRegularExpressionMatch() : m_flat(false) { m_r.has = false; }
     bool hasMatch() const { return m_r.has; }
     bool isValid() const { return true; }
-    int capturedStart(int g = 0) const { if (!m_r.has) return -1; return g == 0 ? m_r.start : ((g <= QM_RX_MAXCAP) ? m_r.cs[g] : -1); }
-    int capturedEnd(int g = 0) const { if (!m_r.has) return -1; return g == 0 ? m_r.end : ((g <= QM_RX_MAXCAP) ? m_r.ce[g] : -1); }
+    int capturedStart(int g = 0) const { QM_LIMIT(!m_flat); if (!m_r.has) return -1; return g == 0 ? m_r.start : ((g <= QM_RX_MAXCAP) ? m_r.cs[g] : -1); }
+    int capturedEnd(int g = 0) const { QM_LIMIT(!m_flat); if (!m_r.has) return -1; return g == 0 ? m_r.end : ((g <= QM_RX_MAXCAP) ? m_r.ce[g] : -1); }
     QString captured(int g = 0) const
     {
         if (!m_r.has) return QString();
@@ -330,28 +428,105 @@ public:
     }
 };
 
+// ---- closed form for categoryfilter.cpp's rule-line expression
+//   ^\s*(\S+?)(?:\.(debug|info|warning|critical))?\s*=\s*(true|false)\s*$
+// (the generic engine handles it too, but through a dynamic programme that is far more expensive for the solver).
+// Derivation: the tail "= ws* (true|false) ws* $" is anchored at the end, so the value, the '=' and the end r of the
+// category part are determined from the right; the category part [i0,r) must be free of white space; the lazy group 1
+// gives a trailing ".debug|.info|.warning|.critical" to group 2 whenever a non-empty category remains.
+#define QM_RX_RULE_TEXT "^\\s*(\\S+?)(?:\\.(debug|info|warning|critical))?\\s*=\\s*(true|false)\\s*$"
+static inline bool rx_ws(ushort c) { return c == ' ' || (c >= 9 && c <= 13); }
+static inline bool rx_tail_is(const QString &s, int end, const char *w, int wl)
+{
+    bool ok = end - wl >= 0;
+    for (int k = 0; k < 9; ++k) if (k < wl && ok && s.m_d[(end - wl + k) >= 0 && (end - wl + k) < QM_STR_CAP ? (end - wl + k) : 0] != ushort(uchar(w[k]))) ok = false;
+    return ok;
+}
+static inline void rx_rule_line(const QString &s, RxResult &res)
+{
+    const int L = s.m_len;
+    res.has = false; res.start = -1; res.end = -1;
+    for (int g = 0; g <= QM_RX_MAXCAP; ++g) { res.cs[g] = -1; res.ce[g] = -1; }
+    int i0 = -1, e1 = 0;
+    for (int i = 0; i < QM_STR_CAP; ++i) if (i < L && !rx_ws(s.m_d[i])) { if (i0 < 0) i0 = i; e1 = i + 1; }
+    if (i0 < 0) return;
+    int vs = -1;
+    if (rx_tail_is(s, e1, "true", 4)) vs = e1 - 4; else if (rx_tail_is(s, e1, "false", 5)) vs = e1 - 5;
+    if (vs < 1) return;
+    int q = 0;       // one past the last non-blank before the value
+    for (int i = 0; i < QM_STR_CAP; ++i) if (i < vs && !rx_ws(s.m_d[i])) q = i + 1;
+    if (q < 1 || s.m_d[q - 1] != '=') return;
+    const int eq = q - 1;
+    int r = 0; bool blankInside = false;
+    for (int i = 0; i < QM_STR_CAP; ++i) if (i < eq && !rx_ws(s.m_d[i])) r = i + 1;
+    if (r <= i0) return;
+    for (int i = 0; i < QM_STR_CAP; ++i) if (i >= i0 && i < r && rx_ws(s.m_d[i])) blankInside = true;
+    if (blankInside) return;
+    int tl = 0;
+    if (rx_tail_is(s, r, ".debug", 6)) tl = 6; else if (rx_tail_is(s, r, ".info", 5)) tl = 5; else if (rx_tail_is(s, r, ".warning", 8)) tl = 8; else if (rx_tail_is(s, r, ".critical", 9)) tl = 9;
+    if (tl > 0 && r - tl <= i0) tl = 0;         // nothing would be left for the category: the suffix belongs to it
+    res.has = true; res.start = 0; res.end = L;
+    res.cs[1] = i0; res.ce[1] = r - tl;
+    if (tl > 0) { res.cs[2] = r - tl + 1; res.ce[2] = r; }
+    res.cs[3] = vs; res.ce[3] = e1;
+}
+
+template<int N> static inline bool rx_is_lit(const QString &s, const char (&lit)[N])
+{
+    if (s.m_len != N - 1) return false;
+    bool r = true;
+    for (int i = 0; i < N - 1 && i < QM_STR_CAP; ++i) if (s.m_d[i] != ushort(uchar(lit[i]))) r = false;
+    return r;
+}
+
 class QRegularExpression
 {
 public:
     enum PatternOption { NoPatternOption = 0, CaseInsensitiveOption = 1 };
     QString m_pattern;
     RxProg m_prog;
+    bool m_is_flat = false;
+    bool m_rule_line = false;
+#ifdef QM_RX_FLAT
+    RxFlat m_flat;
+#endif
     bool m_special_time;      // filesink.cpp's "(.*)%{time *(.*?)}(.*)": only "no match" is modelled
     QRegularExpression() : m_special_time(false) { m_prog.valid = true; m_prog.n = 0; m_prog.anchorStart = false; m_prog.anchorEnd = false; m_prog.ncap = 0; m_prog.nwords = 0; }
     QRegularExpression(const QString &p, int options = 0) : m_pattern(p), m_special_time(false)
     {
         QM_LIMIT(options == 0);
-        if (p == QString::fromLatin1("(.*)%{time *(.*?)}(.*)")) { m_special_time = true; m_prog.valid = true; m_prog.n = 0; return; }
-        RxPat rp = { p.m_d, p.m_len };
+        if (rx_is_lit(p, "(.*)%{time *(.*?)}(.*)")) { m_special_time = true; m_prog.valid = true; m_prog.n = 0; return; }
+#ifdef QM_RX_FLAT
+        m_is_flat = true;
+        rx_flat_compile(p, m_flat);
+#else
+        RxPat rp = { p.m_d, nullptr, p.m_len };
         rx_compile(rp, QM_STR_CAP, m_prog);
+#endif
     }
     // a pattern given as a string literal is compiled straight from the literal (it may be longer than QM_STR_CAP)
     template<int N> QRegularExpression(const char (&lit)[N]) : m_special_time(false)
     {
-        ushort buf[N];
-        for (int i = 0; i < N; ++i) buf[i] = ushort(uchar(lit[i]));
-        RxPat rp = { buf, N - 1 };
-        rx_compile(rp, N, m_prog);
+        {
+            // (compared against the literal in place: a local copy would be an array of more than 64 elements, which
+            //  CBMC does not constant-propagate)
+            bool same = N == sizeof(QM_RX_RULE_TEXT);
+            for (int i = 0; i < N && i < int(sizeof(QM_RX_RULE_TEXT)); ++i) if (lit[i] != QM_RX_RULE_TEXT[i]) same = false;
+            if (same) { m_rule_line = true; m_prog.valid = true; m_prog.n = 0; return; }
+        }
+#ifdef QM_RX_FLAT
+        QM_LIMIT(false);     // other literal expressions are not available in a flat-mode harness
+        return;
+#endif
+        // compiled once per literal (the repository constructs its constant expressions inside loops)
+        static const char *cachedFor = nullptr;
+        static RxProg cached;
+        if (cachedFor != lit) {
+            RxPat rp = { nullptr, lit, N - 1 };
+            rx_compile(rp, N, cached);
+            cachedFor = lit;
+        }
+        m_prog = cached;
     }
     QString pattern() const { return m_pattern; }
     bool isValid() const { return true; }
@@ -361,14 +536,38 @@ public:
         m.m_subject = subject;
         if (m_special_time) {
             // matches iff the subject contains "%{time" followed (anywhere later) by '}'; captures are not modelled
-            int at = subject.indexOf(QString::fromLatin1("%{time"));
+            int at = -1;
+            for (int i = 0; i + 6 <= QM_STR_CAP; ++i) if (at < 0 && i + 6 <= subject.m_len && subject.m_d[i] == '%' && subject.m_d[i + 1] == '{' && subject.m_d[i + 2] == 't' && subject.m_d[i + 3] == 'i' && subject.m_d[i + 4] == 'm' && subject.m_d[i + 5] == 'e') at = i;
             bool hit = at >= 0 && subject.indexOf(QChar('}'), at) >= 0;
             QM_LIMIT(!hit);
             m.m_r.has = false;
             return m;
         }
+        if (m_rule_line) { QM_LIMIT(offset == 0); rx_rule_line(subject, m.m_r); return m; }
+#ifdef QM_RX_FLAT
+        // in a flat-mode harness every expression is either the rule-line expression or flat: the generic engine is not
+        // even referenced (objects reached through possibly-null pointers would otherwise drag it into the encoding)
+        QM_LIMIT(m_is_flat);
+        QM_LIMIT(offset == 0); m.m_flat = true; m.m_r.has = rx_flat_has_match(m_flat, subject); return m;
+#else
         rx_exec(m_prog, subject, offset, m.m_r);
         return m;
+#endif
+    }
+    static QString anchoredPattern(const QString &e) { return QString::fromLatin1("\\A(?:") + e + QString::fromLatin1(")\\z"); }
+    static QString wildcardToRegularExpression(const QString &w)
+    {
+        // Qt 5.15 (non-Windows): * -> [^/]*, ? -> [^/], metacharacters escaped; [..] classes are outside the model
+        QString rx; rx.m_null = false;
+        for (int i = 0; i < QM_STR_CAP; ++i) if (i < w.m_len) {
+            ushort c = w.m_d[i];
+            QM_LIMIT(c != '[');
+            if (c == '*') rx.append(QString::fromLatin1("[^/]*"));
+            else if (c == '?') rx.append(QString::fromLatin1("[^/]"));
+            else if (c == '\\' || c == '$' || c == '(' || c == ')' || c == '+' || c == '.' || c == '^' || c == '{' || c == '|' || c == '}') { rx.append(QChar('\\')); rx.append(QChar(c)); }
+            else rx.append(QChar(c));
+        }
+        return anchoredPattern(rx);
     }
     static QString escape(const QString &s)
     {
@@ -390,8 +589,9 @@ inline QString &QString::remove(const QRegularExpression &re)
     // QString::remove(re) == replace(re, QString()): all non-overlapping leftmost matches
     int from = 0;
     for (int step = 0; step < QM_STR_CAP + 1; ++step) {
+        if (from < 0) continue;
         QRegularExpressionMatch m = re.match(*this, from);
-        if (!m.hasMatch()) break;
+        if (!m.hasMatch()) { from = -1; continue; }
         int s = m.capturedStart(0), e = m.capturedEnd(0);
         QM_LIMIT(e > s);      // empty matches: not modelled
         remove(s, e - s);
